@@ -343,6 +343,13 @@ parse_next_record_header:
             goto encodeResponse;
         }
 
+        if (ssl->rec.len < (uint32_t) AEAD_TAG_LEN(ssl) + 1)
+        {
+            /* No room for the TLSInnerPlaintext type octet. */
+            ssl->err = SSL_ALERT_UNEXPECTED_MESSAGE;
+            psTraceErrr("Protected record too short\n");
+            goto encodeResponse;
+        }
         ptLen = ssl->rec.len - AEAD_TAG_LEN(ssl);
         ptLen--; /* TLSInnerPlaintext type. */
 
